@@ -343,6 +343,28 @@ func checkC04(c *Ctx) {
 		rf.Check(okAll && forwards && n >= 1, f.Name(), "forwards to the wrapped transaction", f.Body.Pos(), "return tx.Tx."+name+"() / ErrInvalidTransaction", "PreparedStmtTX."+name+" does not return the result of the wrapped transaction's "+name)
 	}
 
+	// ---- C04.tx-bound ----
+	// with prepared statements, every statement of a transaction must be re-bound to it (Tx.StmtContext);
+	// a cached statement executed directly runs on another connection, outside the block being committed/rolled back
+	rtb := c.Rule("C04.tx-bound", "PreparedStmtTX executes cached statements only through Tx.StmtContext", 3)
+	{
+		pstx := p.Named(pkgGorm, "PreparedStmtTX")
+		for i := 0; i < pstx.NumMethods(); i++ {
+			f := p.SrcOpt(pstx.Method(i))
+			if f == nil {
+				continue
+			}
+			finfo := f.Pkg.TypesInfo
+			for _, call := range callsIn(f) {
+				fn, _ := typeutil.Callee(finfo, call).(*types.Func)
+				if k, iface, ok := p.driverCallee(fn); ok && k == DrvStmt && !iface {
+					c.Touch(f)
+					rtb.Check(boundToTx(p, f, call), f.Name(), fn.Name()+" re-bound to the transaction", call.Pos(), "runs inside the transaction", "a prepared statement is executed inside a transaction wrapper without (on every path) being re-bound with Tx.StmtContext: the write is auto-committed on another connection and survives a rollback of the block")
+				}
+			}
+		}
+	}
+
 	// ---- C04.restore ----
 	rr := c.Rule("C04.restore", "SavePoint/RollbackTo restore the prepared-statement pool they temporarily replace on every path", 2)
 	stmtT := p.Named(pkgGorm, "Statement")
